@@ -30,6 +30,13 @@ func runChain(prop string) {
 	// the synthetic (non-initial-state) parts run first: they are cheap and must not depend on what the history
 	// exploration leaves of the budget
 	var syn chainh.SynthStats
+	if prop == "C01" {
+		// non-initial states: one default block on synthetic registries (every fork; balances above and below the
+		// effective balances, execution addresses on every fifth validator)
+		chainh.SyntheticRegistriesFor(run, chainh.T4(chainh.AllForks), run.Tier == "thorough", &syn, "C01")
+		fmt.Fprintf(os.Stderr, "C01 blocks on synthetic registries: states=%d blocks=%d\n", syn.States, syn.Transitions)
+		run.Set("synthetic_registry_states", syn.States)
+	}
 	if prop == "C08" {
 		// non-initial states: the context carried through two epoch transitions from synthetic registries (effective
 		// balances changing a lot at the boundary) vs a from-scratch context
